@@ -305,6 +305,7 @@ func init() {
 			p := c.Prog(id)
 			run.SetConfig(id)
 			cfg := &edt.Config{P: p, Mod: modFor(p)}
+			checkScalarWhole(run.Rule("DT-scalar-whole", "BatchInvert returns only after both passes over its inputs; SetBytesModOrderWide reduces all 64 input bytes on every successful path", 2), cfg)
 			if s := checkScMinimal(dts, cfg); s != nil && id == c.Configs()[0] {
 				run.Sample(s)
 			}
